@@ -152,6 +152,34 @@ fn get_best_move_score_depth_1(
     alpha
 }
 
+/// Mate scores count the plies from the root of the search, but the table is shared by nodes
+/// at different plies: an entry holds them counted from the node that stored it
+/// (never better than a mate at that node itself)
+fn score_to_table(score: Score, real_depth: u8) -> Score {
+    if score > Score::MAX - 1000 {
+        score
+            .saturating_add(real_depth as Score)
+            .min(-(Score::MIN + 100))
+    } else if score < Score::MIN + 1000 {
+        score
+            .saturating_sub(real_depth as Score)
+            .max(Score::MIN + 100)
+    } else {
+        score
+    }
+}
+
+/// The inverse of `score_to_table` for the node that reads the entry
+fn score_from_table(score: Score, real_depth: u8) -> Score {
+    if score > Score::MAX - 1000 {
+        score - real_depth as Score
+    } else if score < Score::MIN + 1000 {
+        score + real_depth as Score
+    } else {
+        score
+    }
+}
+
 /// Core function of the alpha beta search algorithm
 /// It halts early and returns None if the should_stop flag is set
 /// Otherwise returns the best score for the current player
@@ -179,18 +207,19 @@ fn get_best_move_score(
 
     if let Some(entry) = table.get(&game.hash()) {
         if entry.depth >= remaining_depth {
+            let score = score_from_table(entry.score, real_depth);
             match entry.flag {
                 NodeType::Exact => {
-                    return Some(entry.score);
+                    return Some(score);
                 }
                 NodeType::LowerBound => {
-                    if entry.score >= beta {
-                        return Some(entry.score);
+                    if score >= beta {
+                        return Some(score);
                     }
                 }
                 NodeType::UpperBound => {
-                    if entry.score <= alpha {
-                        return Some(entry.score);
+                    if score <= alpha {
+                        return Some(score);
                     }
                 }
             }
@@ -295,7 +324,7 @@ fn get_best_move_score(
     }
 
     let new_entry = TableEntry {
-        score: best_score,
+        score: score_to_table(best_score, real_depth),
         pv: best_move,
         depth: remaining_depth,
         flag: if best_score <= initial_alpha {
